@@ -91,6 +91,14 @@ def _gen_once(r, force_2d):
                    theta=_f(r.choice([0.0, 1e-4, 1e-2])),
                    dv=_f(r.choice([0.0, 1e-2, 0.5])),
                    vertical=_f(r.choice([0.0, 0.0, 5.0, -20.0])))
+    if r.random() < 0.3 and n > 2:
+        # an IMU whose driver fills lost samples with zeros: rows whose rotation and/or
+        # velocity increment is EXACTLY zero between ordinary rows
+        rows_ = sorted({int(x) for x in r.integers(0, n, size=int(r.integers(1, 4)))})
+        if r.random() < 0.4 and rows_[-1] + 1 < n:
+            rows_.append(rows_[-1] + 1)
+        perturb['zero_rows'] = rows_
+        perturb['zero_what'] = ['theta', 'dv', 'both'][int(r.integers(3))]
     init = _rand_pva(r, wd)
     n_ops = int(r.integers(3, 41))
     ops = []
@@ -125,6 +133,10 @@ def _gen_once(r, force_2d):
             v = r.random()
             if v < 0.6:
                 ops.append(['set_pva', _rand_pva(r, wd)])
+                if r.random() < 0.35:
+                    # the Series handed over carries no name / another stamp than the
+                    # integrator's current time (a state from another source)
+                    ops[-1].append(['none', 'first', 'other', 'int'][int(r.integers(4))])
             elif v < 0.8:
                 ops.append(['fix_position', [_f(x) for x in r.uniform(-3, 3, 5)]])
             elif v < 0.9:
@@ -163,6 +175,12 @@ def materialise(sc):
     dv = inc[DV_COLS].values + p['dv'] * g.standard_normal((len(inc), 3))
     dv[:, 2] += p['vertical'] * dt[:, 0]
     inc[DV_COLS] = dv
+    if p.get('zero_rows'):
+        rows_ = [i for i in p['zero_rows'] if 0 <= i < len(inc)]
+        if p.get('zero_what', 'both') in ('theta', 'both'):
+            inc.iloc[rows_, [inc.columns.get_loc(c) for c in THETA_COLS]] = 0.0
+        if p.get('zero_what', 'both') in ('dv', 'both'):
+            inc.iloc[rows_, [inc.columns.get_loc(c) for c in DV_COLS]] = 0.0
     t0 = float(stamps[0])
     if sc['knobs'].get('stamping') == 'left':
         inc.index = pd.Index(stamps[:-1], name=inc.index.name)
@@ -432,6 +450,17 @@ def execute(sc, want='C02'):
                             p.iloc[4] += d[4]
                         p.name = t
                     p_copy = p.copy()
+                    name_form = op[2] if name == 'set_pva' and len(op) > 2 else None
+                    if name_form is not None:
+                        # "overwriting the latest state": the state is the nine numbers; the
+                        # time is the integrator's own.  The Series may carry no name or a
+                        # stamp from elsewhere.
+                        stats['foreign_name'] = stats.get('foreign_name', 0) + 1
+                        p = p.copy()
+                        p.name = {'none': None, 'first': t_index[0],
+                                  'other': (int(t) + 12345 if exact_int
+                                            else float(t) + 12345.678),
+                                  'int': 7}[name_form]
                     it.set_pva(p)
                     if _row_bits(p) != _row_bits(p_copy):
                         v02.append(V('arg-modified', "set_pva modified its argument"))
